@@ -79,7 +79,7 @@ def run_one(engine, base_seed, tier, index):
     return out
 
 
-def run_family(engine, base_seed, tier, index):
+def run_family(engine, base_seed, tier, index, deadline=None):
     """Run #index, plus -- for the runs the engine selects -- a complete sweep of fault positions:
     the same workload re-executed once per seam event of the chosen operations (section 3.4 of DESIGN.md)."""
     first = run_one(engine, base_seed, tier, index)
@@ -101,6 +101,10 @@ def run_family(engine, base_seed, tier, index):
         outs.append({"index": index, "sub": 1, "seed": seed, "harness_error": traceback.format_exc()})
         return outs
     for k, plan in enumerate(plans):
+        if deadline is not None and real_time() > deadline:
+            # the tier's wall-clock cap also ends a sweep family: the rest is counted as skipped on budget
+            outs.append({"index": index, "sub": k + 1, "skipped": True})
+            continue
         out = {"index": index, "sub": k + 1, "seed": seed, "sweep": True}
         # re-arm the hang watchdog: it bounds one execution, not a whole family of sub-cases
         faulthandler.dump_traceback_later(engine.RUN_WALL_CAP_S, exit=True)
@@ -131,7 +135,7 @@ def _worker_chunk(args):
             continue
         faulthandler.dump_traceback_later(_ENGINE.RUN_WALL_CAP_S, exit=True)
         try:
-            results.extend(run_family(_ENGINE, base_seed, tier, i))
+            results.extend(run_family(_ENGINE, base_seed, tier, i, deadline))
         finally:
             faulthandler.cancel_dump_traceback_later()
     return results
@@ -397,7 +401,7 @@ def run_check(engine_cls, tier, base_seed, jobs=None, runs=None, budget_s=None, 
         with ProcessPoolExecutor(max_workers=jobs, mp_context=ctx) as pool:
             futs = {pool.submit(_worker_chunk, t): t for t in tasks}
             try:
-                for fut in as_completed(futs, timeout=float(tcfg["budget_s"]) + 120.0):
+                for fut in as_completed(futs, timeout=float(tcfg["budget_s"]) + float(getattr(engine, "RUN_WALL_CAP_S", 300)) + 120.0):
                     try:
                         for r in fut.result():
                             results[(r["index"], r.get("sub", 0))] = r
